@@ -100,7 +100,9 @@ Qed.
 Lemma undo_shrinks : forall l t d, fget d (fs (undo_all l t)) <> None -> fget d (fs t) <> None.
 Proof.
   induction l as [|u l IH]; intros t d H; simpl in *; [exact H|].
-  apply IH in H. destruct u; simpl in H; rewrite fget_frm in H; destruct (d =? d0); congruence.
+  apply IH in H. destruct u; simpl in H.
+  - rewrite fget_frm in H; destruct (d =? d0); congruence.
+  - destruct (fget d0 (fs t)) eqn:G; simpl in H; [rewrite fget_frm in H; destruct (d =? d0); congruence | exact H].
 Qed.
 
 Definition Mono (s s' : st) : Prop :=
@@ -275,7 +277,7 @@ Lemma undo_all_proj : forall l t,
 Proof.
   induction l as [|u l IH]; intro t; simpl; [repeat split; reflexivity|].
   destruct (IH (run_undo t u)) as (A & B & C & D & E). unfold undo_all in *. rewrite A, B, C, D, E.
-  destruct u; simpl; repeat split; reflexivity.
+  destruct u; simpl; try destruct (fget d (fs t)); simpl; repeat split; reflexivity.
 Qed.
 
 Lemma NA_with_ds : forall m, NA m -> NA (with_ds shipped m).
@@ -508,10 +510,10 @@ Proof.
   intros d s' s A B t F E; simpl; split; [eapply feq_trans; [apply feq_frm; exact F | exact A] | eapply feq_trans; eauto].
 Qed.
 
-Lemma restores_UBack : forall d v s' s,
+Lemma restores_UBack : forall d v s' s, fget d (fs s') = Some v ->
   feq (frm d (fs s')) (fs s) -> feq (fset d v (ext s')) (ext s) -> restores [UBack d v] s' s.
 Proof.
-  intros d v s' s A B t F E; simpl; split;
+  intros d v s' s G A B t F E; simpl. rewrite (F d), G. simpl. split;
     [eapply feq_trans; [apply feq_frm; exact F | exact A] | eapply feq_trans; [apply feq_fset; exact E | exact B]].
 Qed.
 
@@ -607,6 +609,7 @@ Proof.
     intros l rr Pt O (Pf & Pm) _. inversion Pt; subst. split.
     + eapply (no_orphan_write d v s); eauto.
     + exists [UBack d v]. split; [reflexivity|]. apply restores_UBack; simpl.
+      * rewrite N.eqb_refl. reflexivity.
       * eapply feq_trans; [apply frm_fset | apply frm_fresh; exact Pf].
       * apply fset_frm_back; exact Ev.
 Qed.
